@@ -98,6 +98,17 @@ CLAIMED["C11"] = dict(
          "the real binary is run on generated sources up to 300 lines (quick) / 50 000 lines (thorough), its dictionary.dat reloaded and every reading and many non-readings looked up the way the engine does.",
     note="full for the builder logic; postcard's image of the dictionary is exercised, not proved; the trie is C04's. One known finding (F17: a format-valid line with an unsupported conjugation row aborts the build).",
     ref="6/C11")
+CLAIMED["C18"] = dict(
+    technique="Coq proof (parser postconditions by induction over PEG interpretations, converter totality and emitted-line round trip, finite okurigana/conjugation table facts by computation) + model-vs-implementation correspondence on the converters compiled from source",
+    text="Kernel-checked theorems: the SKK line parser returns exactly the written reading / okuri letters / words of a well-formed line (C18_skk_faithful); for ANY line without newline that the noun, jinmei, tankan "
+         "and notes parsers accept, every emitted entry is accepted by the dictionary text format and reads back as the same reading, written form and speech (C18_*_line_to_dictionary, via parser postconditions C18_parse_note_wf); "
+         "the notes converter returns entries or takes its explicit unsupported-conjugation rejection, nothing else (C18_notes_total, C18_notes_fail_only_unsupported); every supported (class,row) except ワ行上二 conjugates "
+         "in chokan-dic to a non-empty set with the row's core forms, okurigana beginning in the row (C18_base_verb_conjugates; the exception is proved: C18_base_verb_refuted, known finding F19). "
+         "All four parsers/converters are compiled from the repository into the harness and compared with the models on generated well-formed SKK and notes lines, mutations and random Unicode; emitted lines are read back by the real dictionary parser.",
+    note="partial on one clause: faithfulness of the NOTES parser on well-formed lines (returns exactly what is written) is checked on generated lines against the generator's structure, not proved (the SKK line parser's is proved). "
+         "Three genuine defects repaired (F11a, F11b, F18), one recorded (F19). Trusted: Coq kernel; translators gen_skk (rule shapes pinned, classes generated) and gen_skknotes (okurigana table generated; notes grammar and converter text hash-pinned to the hand models Skk/Notes.v, Skk/NotesConv.v); "
+         "EUC-JP decoding, line splitting and HashSet de-duplication in the converters' main.rs are not modelled.",
+    ref="6a/C18")
 PENDING = {}
 
 def main():
